@@ -27,6 +27,7 @@ type c03Desc struct {
 	StoreID   bool   `json:"id,omitempty"`
 	ZeroEOF   bool   `json:"zeroeof,omitempty"`
 	MaxCid    uint64 `json:"maxcid,omitempty"`
+	Empty     bool   `json:"empty,omitempty"` // payload without any section
 }
 
 type idxKey struct {
@@ -166,6 +167,10 @@ func runC03(t *mon.T, raw json.RawMessage) {
 	}
 	r := gen.Rand(d.Seed)
 	content := gen.MakeContent(r, gen.ContentOpts{MinBlocks: 1, MaxBlocks: 10, MaxRoots: 3, Dups: true, Synthetic: true, Boundaries: true, Block: gen.BlockOpts{MaxSize: 200}})
+	if d.Empty {
+		c03Empty(t, d, r, content)
+		return
+	}
 	// always include the designed corner cases
 	base := content.Blocks[0]
 	bc, _, _ := refcar.SplitCid(base.Cid)
@@ -359,6 +364,44 @@ func runC03(t *mon.T, raw json.RawMessage) {
 	t.Sample(map[string]any{"container": d.Container, "sections": len(ref.Sections), "indexable": len(exp.all), "store_identity": d.StoreID, "zero_eof": d.ZeroEOF, "max_cid": d.MaxCid, "null_padding": nullpad})
 }
 
+// c03Empty: a payload that holds a header and no section must index to an empty index from every source.
+func c03Empty(t *mon.T, d c03Desc, r *gen.RandT, content gen.Content) {
+	payload := refcar.EncodeV1(content.Roots, content.NilRoots, nil)
+	file := payload
+	switch d.Container {
+	case "v1-nullpad":
+		file = append(append([]byte{}, payload...), make([]byte, 1+r.Intn(9))...)
+	case "v2":
+		file = refcar.EncodeV2(payload, refcar.V2Opts{Index: refcar.BuildIndex(refcar.CodecMhIndexSorted, nil)})
+	case "v2-pad":
+		file = refcar.EncodeV2(payload, refcar.V2Opts{Index: refcar.BuildIndex(refcar.CodecIndexSorted, nil), DataPadding: uint64(1 + r.Intn(100)), IndexPadding: uint64(r.Intn(30))})
+	case "v2-indexless":
+		file = refcar.EncodeV2(payload, refcar.V2Opts{})
+	}
+	t.Cover("empty-payload:" + d.Container)
+	t.Nontrivial()
+	opts := lab.Cfg{StoreID: d.StoreID, ZeroEOF: d.Container == "v1-nullpad"}.Opts()
+	probe := lab.ToCid(refcar.MakeCidV1(0x55, 0x12, gen.Bytes(r, 32)))
+	for _, src := range []string{"bytes.Reader", "plain io.Reader"} {
+		for _, codec := range []multicodec.Code{multicodec.CarIndexSorted, multicodec.CarMultihashIndexSorted} {
+			var rd io.Reader = bytes.NewReader(file)
+			if src != "bytes.Reader" {
+				rd = lab.PlainReader{R: bytes.NewReader(file)}
+			}
+			label := fmt.Sprintf("GenerateIndex(%s) from %s", codec, src)
+			idx, err := carv2.GenerateIndex(rd, append(opts, carv2.UseIndexCodec(codec))...)
+			t.Events(1)
+			if err != nil {
+				t.Violatef(label+"/empty-payload/error", "%s fails on a valid %s whose payload holds no section: %v", label, d.Container, err)
+				continue
+			}
+			if err := idx.GetAll(probe, func(uint64) bool { return true }); !errors.Is(err, index.ErrNotFound) {
+				t.Violatef(label+"/empty-payload/not-empty", "%s: index of an empty payload answers a lookup with %v", label, err)
+			}
+		}
+	}
+}
+
 func genC03(g *mon.G) {
 	r := gen.Rand(g.Seed)
 	n := g.Pick(300, 4000)
@@ -375,6 +418,9 @@ func genC03(g *mon.G) {
 		}
 		g.Emit(d)
 	}
+	for i := 0; i < g.Pick(40, 200); i++ {
+		g.Emit(c03Desc{Seed: r.Int63(), Container: conts[i%len(conts)], StoreID: i%2 == 0, Empty: true})
+	}
 }
 
 func init() {
@@ -387,7 +433,7 @@ func init() {
 		Run:   runC03,
 		MinCover: map[string]int{
 			"container:v1": 20, "container:v1-nullpad": 20, "container:v2": 20, "container:v2-pad": 20, "container:v2-indexless": 20,
-			"index-built": 500, "cid-too-large-rejected": 10, "source:plain io.Reader": 100, "source:Reader.DataReader": 100,
+			"index-built": 500, "empty-payload:v2": 3, "empty-payload:v2-pad": 3, "empty-payload:v1": 3, "cid-too-large-rejected": 10, "source:plain io.Reader": 100, "source:Reader.DataReader": 100,
 		},
 	})
 }
